@@ -342,3 +342,18 @@ def _(n, items):
     for k, v in items:
         d[int(k)] = chr(v - 1000) if v >= 1000 else int(v)
     return oP(PA.pauli(d, int(n)))
+
+@op('get_int')
+def _(l, i): return oP(PL(l)[int(i)])
+@op('get_slice')
+def _(l, a, b): return oPL(PL(l)[slice(None if a is None else int(a), None if b is None else int(b))])
+@op('get_mask')
+def _(l, m): return oPL(PL(l)[np.array(m, dtype=np.bool_)])
+@op('get_idx')
+def _(l, idx): return oPL(PL(l)[np.array(idx, dtype=int)])
+@op('list_neg')
+def _(l): return oPL(-PL(l))
+@op('list_rmul')
+def _(c, l): return oPL([1, 1j, -1, -1j][c] * PL(l))
+@op('list_weight')
+def _(l): return [int(v) for v in PL(l).weight()]
